@@ -10,7 +10,7 @@ import numpy as np
 
 from . import qc
 from .common import b2f, bits, f2b, unbits
-from .layouts import LAYOUTS, make_batch, outside_untouched
+from .layouts import DTYPES, LAYOUTS, make_batch, outside_untouched
 from .qc import torch
 
 from qucumber.observables import (NeighbourInteraction, ObservableBase, SigmaX, SigmaY, SigmaZ, SWAP)  # noqa: E402
@@ -41,7 +41,11 @@ RULE = ("case = (leaf observables, batch of samples [+ state], expression tree);
         "leaves, integer-valued scalars, model run over Int, exact comparison; numpy scalars that are not float/int instances, numpy "
         "arrays, tensors, lists, Fractions as operands in EITHER position (fixed + fault-injected); empty batches; the constructors "
         "SumObservable / ProdObservable called directly on every pair of operand classes; real tier: SigmaX/Y/Z, "
-        "NeighbourInteraction, SWAP on random Positive/Complex/Density states, model run over Float. "
+        "NeighbourInteraction, SWAP on random Positive/Complex/Density states, model run over Float; the sample batch is float64, float32 or "
+        "int64 (contiguous / strided / transposed) and handed to the composite and to its parts alike: parts then return float32 (SigmaZ, "
+        "NeighbourInteraction, user-written typed leaves) or float64 values (SigmaX/Y, SWAP), every composite shape x operand order of a "
+        "float32-valued and a float64-valued part is a fixed case; the composite may round only where float32-only sub-expressions round "
+        "(float64 parts enter with float64 precision); cases whose parts themselves refuse the element type are counted, not judged. "
         "non-trivial iff >= 3 operator nodes, a subtraction or negation, and a scalar operand; distinct by hash of "
         "(leaves, expression). history cases: one composite object built from a valid expression and used along a sequence (sample "
         "tensor overwritten in place, state re-parametrised in place, other batch length, other chain lengths, "
@@ -65,10 +69,28 @@ class MockLeaf(ObservableBase):
         return samples.to(torch.double).matmul(self.w).add(self.off)
 
 
+class TypedLeaf(ObservableBase):
+    """a user-written observable with real (non-integer) values whose OUTPUT element type is fixed by the leaf ('f32' / 'f64'), whatever the
+    batch's: samples @ w + off computed in that type.  (The built-in observables behave like this too: on a float32 batch SigmaZ /
+    NeighbourInteraction return float32 values, SigmaX / SigmaY / SWAP float64 values.)"""
+
+    def __init__(self, w, off, out, idx):
+        self.dt = DTYPES[out]
+        self.w = torch.tensor(w, dtype=self.dt)
+        self.off = float(off)
+        self.name = f"T{idx}"
+        self.symbol = f"T{idx}"
+
+    def apply(self, nn_state, samples):
+        return samples.to(self.dt).matmul(self.w).add(self.off)
+
+
 def make_leaf(spec, idx):
     t = spec["type"]
     if t == "mock":
         return MockLeaf(spec["w"], spec["off"], idx)
+    if t == "typed":
+        return TypedLeaf(spec["w"], spec["off"], spec["out"], idx)
     if t == "SigmaX":
         return SigmaX(absolute=spec.get("absolute", False))
     if t == "SigmaY":
@@ -173,6 +195,41 @@ def interp_abs(node, leafabs):
     a = interp_abs(node[1], leafabs)
     b = interp_abs(node[2], leafabs)
     return a * b if t == "mul" else a + b
+
+
+# ---- element types of the parts: what "exactly that arithmetic expression" means when the leaves' values are not all float64
+# torch's arithmetic on a float32 and a float64 tensor is carried out in float64, on two float32 tensors (or a float32 tensor and a Python
+# number) in float32.  A composite may therefore round where a float32-only sub-expression rounds, and nowhere else: in particular the
+# float64 values of a leaf must enter the result with float64 precision.
+EPS = {"f64": 1e-12, "f32": 2.5e-7, None: 1e-12}   # generous multiples of the unit round-offs 1.1e-16 / 6e-8
+
+
+def promote(da, db):
+    return "f64" if "f64" in (da, db) else ("f32" if "f32" in (da, db) else None)
+
+
+def err_bound(node, leafabs, leafdt):
+    """-> (bound on |value|, element type of the node's value (None: a Python number), rounding allowance): every operation may round to
+    the element type torch gives ITS result (promotion of its operands' types), errors of the operands propagate"""
+    t = node[0]
+    if t == "leaf":
+        return leafabs[node[1]], leafdt[node[1]], 0.0
+    if t == "const":
+        return (abs(float(node[2])) if node[1] != "bad" else 0.0), None, 0.0
+    if t == "neg":
+        return err_bound(node[1], leafabs, leafdt)
+    A, da, ea = err_bound(node[1], leafabs, leafdt)
+    B, db, eb = err_bound(node[2], leafabs, leafdt)
+    d = promote(da, db)
+    if t == "mul":
+        v, e = A * B, ea * B + eb * A + ea * eb
+    else:
+        v, e = A + B, ea + eb
+    return v, d, e + EPS[d] * v
+
+
+def dtype_name(x):
+    return {torch.float64: "f64", torch.float32: "f32"}.get(x.dtype, str(x.dtype).replace("torch.", ""))
 
 
 def classify(node):
@@ -362,7 +419,7 @@ def inject_fault(rng, tree, nleaves):
     return ["mul", tree, ["leaf", 0]]
 
 
-def gen_leaves(rng, mode, n):
+def gen_leaves(rng, mode, n, typed=False):
     k = rng.randrange(1, 4)
     if mode == "mock":
         return [{"type": "mock", "w": [rng.randrange(-3, 4) for _ in range(n)], "off": rng.randrange(-2, 3)} for _ in range(k)]
@@ -373,7 +430,33 @@ def gen_leaves(rng, mode, n):
         lambda: {"type": "NI", "periodic": rng.random() < 0.5, "c": rng.randrange(1, max(2, n))},
         lambda: {"type": "SWAP", "A": sorted(rng.sample(range(n), rng.randrange(1, n)))},
     ]
+    if typed:   # user-written observables with real values of a fixed element type
+        pool.append(lambda: {"type": "typed", "w": [round(rng.gauss(0, 1), 3) for _ in range(n)], "off": round(rng.gauss(0, 1), 3),
+                             "out": rng.choice(["f32", "f32", "f64"])})
     return [rng.choice(pool)() for _ in range(k)]
+
+
+DIAG, OFFDIAG = ("SigmaZ", "NI"), ("SigmaX", "SigmaY", "SWAP")
+
+
+def dtype_ok(dt, leaves, state):
+    """can the LEAVES themselves be evaluated on a batch of this element type? (their business, not the composite's: SigmaZ takes a mean, which
+    torch refuses for integer tensors; the off-diagonal observables of a DensityMatrix multiply the batch with float64 matrices)"""
+    types = [sp["type"] for sp in leaves]
+    if dt == "i64" and "SigmaZ" in types:
+        return False
+    if dt != "f64" and state is not None and state["kind"] == "dens" and any(t in OFFDIAG for t in types):
+        return False
+    return True
+
+
+def gen_dtype(rng, leaves, state):
+    """element type of the sample batch: float64 (what `sample` returns), float32 (a data file read as float32), int64 (0 / 1 integers)"""
+    want = rng.choice(["f64", "f64", "f32", "f32", "i64"])
+    for dt in (want, "f32", "f64"):
+        if dtype_ok(dt, leaves, state):
+            return dt
+    return "f64"
 
 
 def gen_state(rng, n):
@@ -403,10 +486,10 @@ def gen_shared_expr(rng, mode, nleaves):
     ])
 
 
-def gen_case(rng, mode, stream, depth):
+def gen_case(rng, mode, stream, depth, dtypes=True):
     n = rng.randrange(2, 5)
     B = rng.choice([1, 2, 3, 4, 6, 1, 2, 3, 4, 6, 0])
-    leaves = gen_leaves(rng, mode, n)
+    leaves = gen_leaves(rng, mode, n, typed=dtypes and mode == "real")
     if stream == "shared":
         expr = gen_shared_expr(rng, mode, len(leaves))
     elif stream == "valid":
@@ -415,10 +498,13 @@ def gen_case(rng, mode, stream, depth):
         expr = inject_fault(rng, gen_obs_expr(rng, mode, max(1, depth - 1), len(leaves)), len(leaves))
     else:
         expr = gen_wild(rng, mode, depth, len(leaves))
-    return {"mode": mode, "stream": stream, "n": n, "leaves": leaves, "expr": expr,
+    case = {"mode": mode, "stream": stream, "n": n, "leaves": leaves, "expr": expr,
             "samples": [[rng.randrange(2) for _ in range(n)] for _ in range(B)],
             "state": gen_state(rng, n) if mode == "real" else None, "layout": rng.choice(LAYOUTS),
             "share": stream == "shared" or (stream == "valid" and rng.random() < 0.25)}
+    if dtypes:
+        case["dtype"] = gen_dtype(rng, leaves, case["state"])
+    return case
 
 
 # ---------------------------------------------------------------- one case
@@ -429,7 +515,8 @@ def one_case(ctx, case):
     carrier = "int" if mode == "mock" else "float"
     leaves = [make_leaf(s, i) for i, s in enumerate(case["leaves"])]
     st = make_state(case["state"])
-    samples = torch.tensor(case["samples"], dtype=torch.double).reshape(len(case["samples"]), case["n"])
+    dt = case.get("dtype", "f64")   # element type of the sample batch handed to the composite AND to its parts
+    samples = make_batch(case["samples"], case["n"], "contig", dt)[0]
     B = len(case["samples"])
     st_info = stats_of(expr)
     cls, exp_err = classify(expr)
@@ -445,8 +532,22 @@ def one_case(ctx, case):
     for s in case["leaves"]:
         ctx.count(f"leaf={s['type']}")
 
-    # ---- leaves' own values (the parts)
-    leafvals = [l.apply(st, samples.clone()).detach().numpy().astype(np.float64).copy() for l in leaves]
+    # ---- leaves' own values (the parts) on a batch of the same element type, and the element type of each part's values
+    ctx.count(f"batch_dtype={dt}")
+    leaf_err = None
+    try:
+        # the parts see a batch of the same element type AND memory layout as the composite will (a float32 reduction inside a part may
+        # round differently on a strided batch: that is the part's value on THAT batch)
+        lts = [l.apply(st, make_batch(case["samples"], case["n"], case.get("layout", "contig"), dt)[0]).detach() for l in leaves]
+        leafdt = [dtype_name(x) for x in lts]
+        leafvals = [x.numpy().astype(np.float64).copy() for x in lts]
+    except Exception as e:  # noqa: BLE001 - a PART refuses this batch (element type): nothing is said about the composite's value then
+        leaf_err = type(e).__name__
+        leafdt, leafvals = [], []
+        ctx.count(f"a_leaf_refuses_the_batch:{dt}:{leaf_err}")
+    dtype_regime = carrier == "float" and any(d != "f64" for d in leafdt)
+    if dtype_regime:
+        ctx.count("leaf_value_dtypes=" + "+".join(sorted(set(leafdt))))
     # ---- implementation: build with the real operators
     impl_err, obj = None, None
     try:
@@ -470,13 +571,18 @@ def one_case(ctx, case):
     impl_apply = impl_stats = impl_stats_err = None
     if impl_err != exp_err:
         return  # already a violation; nothing sensible to evaluate further
+    if leaf_err is not None or any(d not in ("f64", "f32") for d in leafdt):
+        return  # the parts have no (floating-point) values on this batch: the value of the composite is not constrained
+    # rounding allowance per sample (see err_bound): all parts float64 -> the usual 1e-9 * scale; otherwise only where float32 parts meet
+    bnd = np.array([err_bound(expr, [abs(float(lv[k])) for lv in leafvals], leafdt)[2] for k in range(B)]) if carrier == "float" else np.zeros(B)
+    root_dt = err_bound(expr, [1.0] * len(leaves), leafdt)[1] if leafdt else "f64"
     if isinstance(obj, ObservableBase):
         lay = case.get("layout", "contig")   # the batch handed to the composite: contiguous / strided view of a larger buffer / transposed
         ctx.count(f"layout={lay}")
         try:
-            t1, back1 = make_batch(case["samples"], case["n"], lay)
+            t1, back1 = make_batch(case["samples"], case["n"], lay, dt)
             impl_apply = obj.apply(st, t1).detach().numpy().astype(np.float64)
-            t2, back2 = make_batch(case["samples"], case["n"], lay)
+            t2, back2 = make_batch(case["samples"], case["n"], lay, dt)
             try:
                 impl_stats = obj.statistics_from_samples(st, t2)
             except ZeroDivisionError:
@@ -509,9 +615,14 @@ def one_case(ctx, case):
         else:
             want_f = np.array([float(interp(expr, [lv[s] for lv in leafvals])) for s in range(B)])
             sc = max([1.0] + [interp_abs(expr, [abs(float(lv[s])) for lv in leafvals]) for s in range(B)])
-            ok = bool(np.all(np.abs(impl_apply - want_f) <= 1e-9 * sc))
-        ctx.oracle("apply == expression(leaf values)", ok, case, detail={"impl": impl_apply.tolist(), "expected": want_f.tolist()},
-                   sig=f"{sig}/apply-oracle", theorem=THEOREMS["apply"])
+            tol = (bnd + 1e-12 * sc) if dtype_regime else 1e-9 * sc
+            ok = impl_apply.shape == want_f.shape and bool(np.all(np.abs(impl_apply - want_f) <= tol))
+        ctx.oracle("apply == expression(leaf values)" + (" (float64 parts enter with float64 precision; rounding only where float32 parts meet)"
+                                                         if dtype_regime else ""), ok, case,
+                   detail={"impl": impl_apply.tolist(), "expected": want_f.tolist(), "batch_dtype": dt, "leaf_value_dtypes": leafdt,
+                           "max_abs_diff": float(np.max(np.abs(impl_apply - want_f))) if impl_apply.shape == want_f.shape and B else None,
+                           "allowed": (float(np.max(bnd)) if dtype_regime and B else None)},
+                   sig=f"{sig}/apply-oracle" + ("/mixed-dtypes" if dtype_regime else ""), theorem=THEOREMS["apply"])
         # oracle: statistics are those of the combined per-sample value
         if B == 0:
             ctx.count("empty_batch")
@@ -519,9 +630,15 @@ def one_case(ctx, case):
         v = float(np.var(want_f, ddof=1)) if B > 1 else float("nan")
         se = math.sqrt(v / B) if B > 1 and v >= 0 else float("nan")
         vs = max([1.0] + [abs(float(x)) for x in want_f])
-        okS = B == 0 or (impl_stats["num_samples"] == B and abs(impl_stats["mean"] - m) <= 1e-9 * vs
+        # tolerances: float64 values -> 1e-9; values that are float32 tensors -> their statistics are float32 reductions; plus what the
+        # per-sample rounding allowance can move a mean / a variance
+        bmax = float(np.max(bnd)) if dtype_regime and B else 0.0
+        tm = (1e-5 if (dtype_regime and root_dt == "f32") else 1e-9) * vs + bmax
+        tv = (1e-5 if (dtype_regime and root_dt == "f32") else 1e-9) * vs * vs + 4 * vs * bmax
+        tse = (1e-7 * vs) if not dtype_regime else (math.sqrt(tv / max(B, 1)) + 1e-7 * vs)
+        okS = B == 0 or (impl_stats["num_samples"] == B and abs(impl_stats["mean"] - m) <= tm
                and ((math.isnan(v) and math.isnan(impl_stats["variance"]) and math.isnan(impl_stats["std_error"])) or
-                    (abs(impl_stats["variance"] - v) <= 1e-9 * vs * vs and abs(float(impl_stats["std_error"]) - se) <= 1e-7 * vs)))
+                    (abs(impl_stats["variance"] - v) <= tv and abs(float(impl_stats["std_error"]) - se) <= tse)))
         ctx.oracle("statistics == statistics of expression(leaf values)", bool(okS), case,
                    detail={"impl": None if impl_stats is None else {k: float(x) for k, x in impl_stats.items()}, "expected": [m, v, se, B]},
                    sig=f"{sig}/stats-oracle", theorem=THEOREMS["stats"])
@@ -562,7 +679,10 @@ def one_case(ctx, case):
         sc = max([1.0] + [abs(float(x)) for x in impl_apply])
     else:
         sc = max([1.0] + [interp_abs(expr, [abs(float(lv[s])) for lv in leafvals]) for s in range(B)])
-        ctx.point("apply", "property", impl_apply, unbits(mod["apply"]), case, scale=sc, theorem=THEOREMS["apply"], sig=f"{sig}/apply")
+        # mixed element types: the model (float64 throughout) and the implementation may differ by the rounding allowance, and by no more
+        ptol = {"rtol": 1e-11, "atol": (float(np.max(bnd)) if B else 0.0) / sc + 1e-12} if dtype_regime else {}
+        ctx.point("apply", "property", impl_apply, unbits(mod["apply"]), case, scale=sc, theorem=THEOREMS["apply"],
+                  sig=f"{sig}/apply" + ("/mixed-dtypes" if dtype_regime else ""), **ptol)
         ctx.point("model apply == model eval", "aux", unbits(mod["eval"]), unbits(mod["apply"]), case, scale=sc, sig=f"{sig}/apply-eval")
         modf = mod
     ms = modf["stats"]
@@ -570,11 +690,17 @@ def one_case(ctx, case):
         ctx.point("statistics_from_samples: error kind", "property", impl_stats_err, ms.get("error"), case, exact=True, sig=f"{sig}/stats",
                   theorem=THEOREMS["stats"])
         return
-    ctx.point("stats.mean", "property", [impl_stats["mean"]], unbits([ms["mean"]]), case, scale=sc, theorem=THEOREMS["stats"], sig=f"{sig}/stats")
+    if dtype_regime:
+        # statistics of values that are (partly) float32: float32 reductions / per-sample rounding allowance (see the stats oracle above)
+        a = (1e-5 if root_dt == "f32" else 1e-9) + 4 * (float(np.max(bnd)) if B else 0.0) / sc
+        stol, setol = {"atol": a}, {"rtol": 1e-5, "atol": math.sqrt(a) + 1e-7}
+    else:
+        stol, setol = {}, {"rtol": 1e-5, "atol": 1e-7}
+    ctx.point("stats.mean", "property", [impl_stats["mean"]], unbits([ms["mean"]]), case, scale=sc, theorem=THEOREMS["stats"], sig=f"{sig}/stats", **stol)
     ctx.point("stats.variance", "property", [impl_stats["variance"]], unbits([ms["variance"]]), case, scale=sc * sc,
-              theorem=THEOREMS["stats"], sig=f"{sig}/stats")
+              theorem=THEOREMS["stats"], sig=f"{sig}/stats", **stol)
     ctx.point("stats.std_error", "property", [float(impl_stats["std_error"])], unbits([ms["std_error"]]), case, scale=sc,
-              rtol=1e-5, atol=1e-7, theorem=THEOREMS["stats"], sig=f"{sig}/stats")
+              theorem=THEOREMS["stats"], sig=f"{sig}/stats", **setol)
     ctx.point("stats.num_samples", "property", impl_stats["num_samples"], ms["n"], case, exact=True, theorem=THEOREMS["stats"],
               sig=f"{sig}/stats")
 
@@ -589,7 +715,8 @@ def ctor_case(ctx, case):
     carrier = "int" if mode == "mock" else "float"
     leaves = [make_leaf(sp, i) for i, sp in enumerate(case["leaves"])]
     st = make_state(case["state"])
-    samples = torch.tensor(case["samples"], dtype=torch.double).reshape(len(case["samples"]), case["n"])
+    dt = case.get("dtype", "f64")
+    samples = make_batch(case["samples"], case["n"], "contig", dt)[0]
     B = len(case["samples"])
     ca, cb = classify(ea), classify(eb)
     ctx.case({"ctor": which, "a": ea, "b": eb, "leaves": case["leaves"]}, nontrivial=ca[0] == "obs" or cb[0] == "obs",
@@ -625,17 +752,30 @@ def ctor_case(ctx, case):
                impl_err == exp_err, case, detail={"impl": impl_err, "expected": exp_err}, sig=f"{sig}/outcome", theorem=THEOREMS["ctor"])
     if impl_err != exp_err:
         return
-    leafvals = [l.apply(st, samples.clone()).detach().numpy().astype(np.float64).copy() for l in leaves]
+    ctx.count(f"ctor_batch_dtype={dt}")
+    try:
+        lts = [l.apply(st, samples.clone()).detach() for l in leaves]
+    except Exception as e:  # noqa: BLE001 - a part refuses this batch (element type): the composite's value is not constrained
+        ctx.count(f"ctor:a_leaf_refuses_the_batch:{dt}:{type(e).__name__}")
+        return
+    leafdt = [dtype_name(x) for x in lts]
+    if any(d not in ("f64", "f32") for d in leafdt):
+        return
+    leafvals = [x.numpy().astype(np.float64).copy() for x in lts]
+    dtype_regime = carrier == "float" and any(d != "f64" for d in leafdt)
     spec = ["add" if which == "sum" else "mul", ea, eb]
+    bnd = np.array([err_bound(spec, [abs(float(lv[k])) for lv in leafvals], leafdt)[2] for k in range(B)]) if dtype_regime else np.zeros(B)
     got = None
     if impl_err is None:
         got = obj.apply(st, samples.clone())
         got = got.detach().numpy().astype(np.float64)
         want = np.array([float(interp(spec, [lv[k] for lv in leafvals])) for k in range(B)])
         sc0 = max([1.0] + [interp_abs(spec, [abs(float(lv[k])) for lv in leafvals]) for k in range(B)])
+        tol = (bnd + 1e-12 * sc0) if dtype_regime else 1e-9 * sc0
         ctx.oracle("constructor: apply == (a + b | a * b) on the leaves' values",
-                   got.shape == want.shape and bool(np.all(np.abs(got - want) <= 1e-9 * sc0)), case,
-                   detail={"impl": got.tolist(), "expected": want.tolist()}, sig=f"{sig}/apply-oracle", theorem=THEOREMS["ctor_value"])
+                   got.shape == want.shape and bool(np.all(np.abs(got - want) <= tol)), case,
+                   detail={"impl": got.tolist(), "expected": want.tolist(), "batch_dtype": dt, "leaf_value_dtypes": leafdt},
+                   sig=f"{sig}/apply-oracle" + ("/mixed-dtypes" if dtype_regime else ""), theorem=THEOREMS["ctor_value"])
     if ctx.driver is None:
         return
     vals = [[int(v) for v in lv] for lv in leafvals] if carrier == "int" else [bits(lv) for lv in leafvals]
@@ -651,8 +791,10 @@ def ctor_case(ctx, case):
         ctx.point("constructor: apply", "property", [int(v) if float(v).is_integer() else float(v) for v in got], m["apply"], case, exact=True,
                   theorem=THEOREMS["ctor_value"], sig=f"{sig}/apply")
     else:
-        ctx.point("constructor: apply", "property", got, unbits(m["apply"]), case, scale=max([1.0] + [abs(float(x)) for x in got]),
-                  theorem=THEOREMS["ctor_value"], sig=f"{sig}/apply")
+        scp = max([1.0] + [abs(float(x)) for x in got])
+        ptol = {"rtol": 1e-11, "atol": (float(np.max(bnd)) if B else 0.0) / scp + 1e-12} if dtype_regime else {}
+        ctx.point("constructor: apply", "property", got, unbits(m["apply"]), case, scale=scp,
+                  theorem=THEOREMS["ctor_value"], sig=f"{sig}/apply" + ("/mixed-dtypes" if dtype_regime else ""), **ptol)
     ctx.point("constructor: model apply == model eval", "aux", m["eval"], m["apply"], case, exact=True, sig=f"{sig}/apply-eval")
 
 
@@ -706,9 +848,51 @@ def fixed_cases():
                 yield {"ctor": which, "mode": "mock", "stream": "ctor", "n": 3, "leaves": mock, "a": a, "b": b, "samples": samples, "state": None}
 
 
+def fixed_dtype_cases():
+    """element types of the batch and of the parts' values, systematically: every composite SHAPE (sum, difference, scalar on either side,
+    nested sums, negation, scalar multiples) x every ORDER of a float32-valued part D and a float64-valued part O, on float32 / int64 batches
+    (built-in observables: SigmaZ / NeighbourInteraction return the batch's float type (float32 for integers), SigmaX / SigmaY / SWAP
+    float64) and on float64 batches with user-written parts of a fixed element type; all memory layouts"""
+    import random
+
+    rng = random.Random(1606)
+    n = 3
+    samples = [[0, 1, 1], [1, 0, 0], [1, 1, 1], [0, 0, 0], [1, 0, 1]]
+    D, O = ["leaf", 0], ["leaf", 1]
+    c1, c2, c3 = ["const", "float", 0.3], ["const", "int", 2], ["const", "npfloat", -1.7]
+    shapes = [
+        ["add", D, O], ["add", O, D], ["sub", D, O], ["sub", O, D], ["add", ["add", D, c1], O], ["sub", ["add", c2, D], O],
+        ["add", O, ["sub", D, c1]], ["add", ["neg", O], ["add", D, O]], ["add", ["sub", D, c2], ["add", O, c1]],
+        ["add", ["mul", c3, D], O], ["add", D, ["mul", O, c3]], ["sub", ["mul", D, c1], ["mul", c2, O]], ["sub", c1, ["add", D, O]],
+        ["neg", ["add", D, O]], ["mul", c3, ["add", D, O]], ["mul", ["sub", O, D], c1], ["add", ["add", D, D], O], ["add", D, ["add", D, O]],
+        ["sub", ["sub", c2, O], D], ["add", c1, ["add", c3, ["sub", D, O]]],
+    ]
+    typed32 = {"type": "typed", "w": [0.7, -1.3, 0.1], "off": 0.2, "out": "f32"}
+    typed64 = {"type": "typed", "w": [-0.9, 0.4, 1.1], "off": -0.6, "out": "f64"}
+    sets = [
+        ("pos", "f32", [{"type": "SigmaZ", "absolute": False}, {"type": "SigmaX", "absolute": False}]),
+        ("pos", "f32", [{"type": "NI", "periodic": False, "c": 1}, {"type": "SWAP", "A": [0, 2]}]),
+        ("cplx", "f32", [{"type": "SigmaZ", "absolute": True}, {"type": "SigmaY", "absolute": False}]),
+        ("cplx", "i64", [{"type": "NI", "periodic": True, "c": 2}, {"type": "SigmaX", "absolute": True}]),
+        ("pos", "i64", [{"type": "NI", "periodic": False, "c": 2}, {"type": "SigmaX", "absolute": False}]),
+        ("pos", "f64", [typed32, typed64]), ("cplx", "f64", [typed32, {"type": "SigmaY", "absolute": False}]),
+        ("dens", "f32", [{"type": "SigmaZ", "absolute": False}, typed64]), ("dens", "i64", [{"type": "NI", "periodic": False, "c": 1}, typed64]),
+    ]
+    k = 0
+    for kind, dt, leaves in sets:
+        st = gen_state(rng, n)
+        while st["kind"] != kind:
+            st = gen_state(rng, n)
+        for e in shapes:
+            k += 1
+            yield {"mode": "real", "stream": "dtype", "n": n, "leaves": leaves, "expr": e, "samples": samples, "state": st,
+                   "layout": LAYOUTS[k % len(LAYOUTS)], "dtype": dt, "share": k % 7 == 0}
+
+
 def gen_cases(ctx, scale):
     rng = ctx.rng
     yield from fixed_cases()
+    yield from fixed_dtype_cases()
     for _ in range(40 * scale):
         for depth in (1, 2, 3, 4, 5, 6):
             yield gen_case(rng, "mock", "valid", depth)
@@ -758,7 +942,7 @@ def reparam_in_place(st, s):
 
 def gen_history(rng, mode, depth):
     """a valid expression + the sequence of evaluations made with the one composite object built from it"""
-    c = gen_case(rng, mode, "valid", depth)
+    c = gen_case(rng, mode, "valid", depth, dtypes=False)
     n, B = c["n"], len(c["samples"])
     if c["state"] is None:   # mock leaves ignore the state, but statistics() needs a sampler
         c["state"] = {"kind": "pos", "n": n, "h": 2, "am": qc.rand_rbm_params(rng, n, 2, 0.5)}
